@@ -81,6 +81,8 @@ class Gen:
                 kinds = ['para', 'para', 'para+lit', 'bullets', 'enum', 'doctest']
             if self.fmt != 'epytext' and depth == 0 and top:
                 kinds = kinds + ['version']
+            if self.fmt == 'restructuredtext' and depth == 0 and top:
+                kinds = kinds + ['codeblock']
             k = r.choice(kinds) if i else 'para'             # every container starts with a paragraph
             if prev in ('bullets', 'enum') and k in ('bullets', 'enum'):
                 k = 'para'        # two lists in a row would read as one list / a nested list
@@ -135,6 +137,15 @@ class Gen:
                         out.append('')
                         out += self.blocks(len(pad) + len(bullet), depth + 1, sink, False, False)
                         need_blank = True
+            elif k == 'codeblock':
+                # reST: ".. code:: python" / ".. python::" followed by a blank line and an indented block, reproduced verbatim
+                ct = self.tok()
+                sink.append(ct)
+                code = [f'{ct} = 1', f'def  spaced{r.randint(1, 9)}(a,  b=1):', '    return   a', 'class   Aligned:', f'    x  =  "{ct[:3]}"'][:r.randint(2, 5)]
+                out.append(pad + r.choice(['.. code:: python', '.. python::', '.. code::']))
+                out.append('')
+                out += [pad + '   ' + ln for ln in code]
+                self.exp.verbatim.append(('code', '\n'.join(code)))
             elif k == 'version':
                 # reST: ".. versionadded:: <version> [text on the directive line]" followed by an optional indented body;
                 # both the text on the directive line and the body belong to the description
@@ -157,6 +168,9 @@ class Gen:
                 body = [f'>>> {dt} = {r.randint(1, 99)}', f'>>> print({dt})', f'{r.randint(1, 99)}']
                 if r.random() < .4:
                     body.insert(1, '... # cont')
+                if r.random() < .35:
+                    # examples are reproduced character for character: irregular spacing inside them is part of the text
+                    body[1:1] = [f'>>> def  spaced{r.randint(1, 9)}(a,  b=1):  return  a', f'>>> class   Aligned:   x  =  1', '>>> x   =   [1,2 ,3]']
                 if r.random() < .3:
                     body.append('  indented <output> & more')
                 # doctest block: starts with ">>> " after a blank line, ends at the next blank line
@@ -243,6 +257,23 @@ class Gen:
         if r.random() < .5:
             # the manuals fix no order among fields: a type field may come before the description it belongs to
             r.shuffle(chosen)
+        if fmt == 'restructuredtext' and r.random() < .25 and not any(t == 'param' for t, _ in chosen):
+            # consolidated form: one field holding a bullet list, one item per parameter: "- `name`: description", an item may go on
+            # with further paragraphs indented under it
+            out.append(':Parameters:')
+            for key in [k for k in ('a', 'b') if r.random() < .8] or ['a']:
+                toks: List[str] = []
+                first = self.para_lines(toks, 1, 3)
+                out.append(f'    - `{key}`: ' + first[0])
+                out.extend('      ' + ln for ln in first[1:])
+                if r.random() < .5:
+                    out.append('')
+                    out.extend('      ' + ln for ln in self.para_lines(toks, 1, 3))
+                if r.random() < .3:
+                    out.append('')
+                    out.extend('      ' + ln for ln in ('- ' + self.inline(toks), '- ' + self.inline(toks)))
+                self.exp.fields.append(('Parameters', key, toks))
+            out.append('')
         for tag, key in chosen:
             toks: List[str] = []
             if tag in ('type', 'rtype', 'ytype'):
